@@ -564,6 +564,7 @@ func (d *D) writeQ(content string) string {
 }
 
 func (d *D) verify(content, priv string) (verr error, buildErr error, panicked string) {
+	core.HeartbeatNow()
 	path := d.writeQ(content)
 	panicked = guard(func() {
 		var opts []learn.Option
